@@ -40,7 +40,9 @@ CHECKS = {
            'laws) over all permutations of axes up to 4, injective / partial renamings, all layouts. Deductive part (Tier A, '
            'view-level scipy model): Table.sort_order (the ids of the axis become exactly the requested order, every cell and '
            'every metadata entry travels with its id, the other axis and the receiver are untouched, unknown ids refused), '
-           'Table.sort (sort_f sees the ids of the axis once; what it returns is handed to sort_order on the same axis), '
+           'Table.sort (sort_f sees the ids of the axis once; what it returns is handed to sort_order on the same axis; a second '
+           'contract of the same method covers the default natural order: natsort is asked once for the ids of the axis and '
+           'its answer is the order of the result, whatever the ids look like), '
            'Table.transpose (cells mirrored, ids and metadata of the axes swapped, receiver untouched), Table.copy, '
            'Table.update_ids (every id becomes what the map says or stays, never truncated by the fixed-width array; other axis, '
            'metadata and cells untouched; lookups rebuilt; in-place never leaves duplicates; a refused update changes nothing). '
